@@ -675,7 +675,7 @@ fn multi_element(rec: &mut Rec, ctx: &Ctx, idx: u64, rng: &mut ChaCha20Rng) {
     let mut r2 = RecRng::new(case_rng(ctx, "multi-element-foreign-stream", idx));
     if let Ok(ev2) = star_sharks::Sharks(t).dealer_rng(&secret2, &mut r2) {
       let own_x: Vec<BigUint> = shares.iter().map(|s| of(&s.x)).collect();
-      let foreign: Vec<star_sharks::Share> = ev2.take(3).filter(|s| !own_x.contains(&of(&s.x))).take(1).collect();
+      let foreign: Vec<star_sharks::Share> = ev2.take(t as usize + 3).filter(|s| !own_x.contains(&of(&s.x))).take(1).collect();
       if foreign.len() == 1 && foreign[0].y.len() == k2 {
         let tm1 = t as usize - 1;
         for pos in 0..=tm1 {
